@@ -44,7 +44,7 @@ CLAIM = ("Every left/right state within K deviations (K=2 quick, K=3 thorough fo
          "Exhaustive over the stated lattice; the enumerator asserts that every physically reachable (pattern x velocity-difference) cell "
          "is populated. Right level: the property is an integral identity whose failure modes are per-pattern formulas, so the relevant "
          "coverage is branch x parameter-interaction coverage, which a deviation-bounded lattice with pattern book-keeping gives.")
-LEVEL_NOTE = ("trusted: numpy, the transcription of the gamma-law and JWL energy in props/C04.py, the Gauss-Lobatto/Legendre rules; "
+LEVEL_NOTE = ("trusted: numpy, the transcription of the gamma-law and JWL energy in xpmc/x_c04_lattice.py, the Gauss-Lobatto/Legendre rules; "
               "assumed: states between lattice values behave like their neighbours; the general-EOS solver is judged at its documented "
               "resolution (bound h*TV), so a defect smaller than that bound is not seen there")
 BOUND = {"quick": "IGEOS K=2 deviations from each of 4 pattern roots; GenEOS K=1 (num_int_pts=501, num_x_pts=4001); all tabulated problems and mirrors",
@@ -58,7 +58,7 @@ ASSUMPTIONS = [
     "initial internal energy from the documented EOS: e = p/((gamma-1) rho) (ideal gas), e = (p - f_JWL(rho))/((gamma-1) rho) (JWL, literature form)",
     "RCR with equal velocities is physically impossible (f_L(p*)+f_R(p*) = ul-ur = 0 has no root below both pressures) and SCS with equal "
     "velocities exists only as the degenerate pure contact (pl = pr); the coverage assertion asks for the seven reachable cells "
-    "(six for the general-EOS solver, which raises on the pure contact)",
+    "(six for the general-EOS solver, which labels the zero-strength waves of a pure contact shock or rarefaction as its bisection lands)",
     "general-EOS solver: agreement only to h*TV(q) + (2/num_int_pts) of the balance scale (class C)",
 ]
 
@@ -72,11 +72,11 @@ RES_FINE = [2001, 16001]
 # times, tree with SCR_call repaired, equal-state/two-gamma corner excluded): 1.19e-11 (mirrored LeBlanc).  The recorded
 # defects are at 1e-3..0.76.
 TOL_IGEOS = 1e-9
-# general-EOS solver (class C), two resolution terms on top of the explicit h*TV bound:
-#  * the P-U curves are tables of num_int_pts pressures; a star pressure within one table step of pl or pr is clamped
-#    to the first table entry (np.interp end value), a first-order error <= 1/(gamma*num_int_pts) in the star density;
-#    measured worst (|residual| - h*TV)/S over the thorough lattice: 7.8e-4 at num_int_pts=501 (pure contact pl=pr),
-#    2.0e-4 at 2001  ->  2/num_int_pts (4e-3 / 1e-3).
+# general-EOS solver (class C), a table-resolution term on top of the explicit h*TV bound: the P-U curves are tables of
+# num_int_pts pressures; a star pressure within one table step of pl or pr is clamped to the first table entry
+# (np.interp end value), a first-order error <= 1/(gamma*num_int_pts) in the star density.  Measured over the thorough
+# lattice (equal-state/two-gamma corner excluded): worst |residual|/S 1.6e-3, worst (|residual| - h*TV)/S 7.8e-4 at
+# num_int_pts=501 (pure contact pl=pr), < 0 at 2001  ->  2/num_int_pts (4e-3 / 1e-3).
 def tol_gen_table(num_int_pts):
     return 2.0 / num_int_pts
 
